@@ -1,5 +1,6 @@
 import Model.Sched
 import Driver.Common
+import Std.Data.HashMap
 /-! Driver for C05: one case (configuration + initial files + schedule) per line in, one canonical answer
 line out, computed by the model's own `init` / `step`.  Format mirrors harness/cmd/vh_c05. -/
 open SV SV.Stg SV.Stg.Stages SV.Sch SVD
@@ -10,6 +11,9 @@ def kv (toks : List String) (key : String) : String :=
   match toks.find? (fun t => t.startsWith (key ++ "=")) with
   | some t => (t.drop (key.length + 1)).toString
   | none => ""
+
+/-- fix=0 the code as it is; 1 = patch of dependenciesCompleted; 2 = patch of markShadowedUnits; 3 = both -/
+def parseFix (s : String) : Patch := ⟨s == "1" || s == "3", s == "2" || s == "3"⟩
 
 def parseRange (s : String) : Option Range :=
   if s == "nil" || s == "" then none else
@@ -203,7 +207,7 @@ def runCase (toks : List String) : String :=
     readExecOut := parseRange (kv toks "re"), graph := parseGraph (kv toks "st"), start := nat! (kv toks "start"),
     outIsIndex := kv toks "idx" == "1", outIsMap := kv toks "idx" != "1", outInit := nat! (kv toks "xi"),
     workers := nat! (kv toks "w") }
-  let fix := kv toks "fix" == "1"
+  let fix := parseFix (kv toks "fix")
   let verbose := kv toks "v" == "1"
   match init cfg fix (parseFiles (kv toks "files")) with
   | .error _ => "steps=0 end=panic:init"
@@ -214,11 +218,217 @@ def runCase (toks : List String) : String :=
     s!"steps={a.n} end={endString a.st} h={hexU64 a.h} jobs={listOr a.jobs} merges={listOr a.merges} last={a.last}" ++
       (if verbose then " trace=" ++ " || ".intercalate a.trace else "")
 
+/-! ### exhaustive exploration of the model (all interleavings; visited set on the state) -/
+
+partial def cmdKey : Cmd → String
+  | .batch l => "B[" ++ ",".intercalate (l.map cmdKey) ++ "]"
+  | .scheduleNextJob => "N" | .allStoresCompleted => "A"
+  | .mergeNotReady _ => "R"
+  | .merge u => s!"G({u.seg},{u.stage})"
+  | .downloadSegment => "D" | .downloadCurrent seg => s!"L{seg}" | .walkerCompleted => "K"
+  | .shutdown => "Q" | .quit e => if e then "X1" else "X0" | .tick => "T"
+  | .job u sb w => s!"J({u.seg},{u.stage},{sb},{w})"
+
+def insertStr (x : String) : List String → List String
+  | [] => [x]
+  | y :: ys => if x < y then x :: y :: ys else y :: insertStr x ys
+
+def partialsString (f : Files) : String :=
+  ",".intercalate ((sort3 ((f.stores.filter (·.partial_)).map fun x => (x.stage * 16 + x.mod, x.start, x.stop))).map
+    fun x => s!"{x.1}@{x.2.1}-{x.2.2}")
+
+/-- state identity used by the explorers (same abstraction as the harness, which cannot look inside a closure):
+the bag as a multiset of command kinds -/
+def stateKey (st : State) : String :=
+  let bag := (st.bag.map fun c => String.singleton (cmdTag c)).foldl (fun acc x => insertStr x acc) []
+  s!"{statesString st.stages} {fingerprint st.stages} {poolString st.pool} {walkString st.walker} " ++
+  s!"{st.outDone},{st.storesDone} {"".intercalate bag} {fullsString st.files} {outsString st.files} " ++
+  s!"{endString st}"
+
+/-- Exploration order.  Commands that answer at once (batch, schedule-next-job, merge-not-ready, all-stores,
+download-segment, walker-completed, shutdown, quit) are executed first, oldest first; the explored
+nondeterminism is which LONG-RUNNING command answers next: a job, a merge, a file download, a timer.  The
+ramp-up clock is part of the explored state: it may elapse at the start or at any timer event. -/
+def isImmediate (c : Cmd) : Bool :=
+  match c with
+  | .job _ _ _ | .merge _ | .downloadCurrent _ | .tick => false
+  | _ => true
+
+def choicesOf (st : State) (clock : Bool) : List (Nat × Bool) :=
+  match st.bag.findIdx? isImmediate with
+  | some i => [(i, clock)]
+  | none =>
+    (List.range st.bag.length).flatMap fun i =>
+      match st.bag[i]? with
+      | some Cmd.tick => if clock then [(i, true)] else [(i, false), (i, true)]
+      | some _ => [(i, clock)]
+      | none => []
+
+/-- lower-stage units of the previous segment that are neither Completed nor NoOp -/
+def prevIncomplete (s : Stages) (u : WorkUnit) : List Nat :=
+  (List.range u.stage).filter fun i => !s.previousUnitComplete ⟨u.seg, i⟩
+
+partial def flatCmds : List Cmd → List Cmd
+  | [] => []
+  | .batch l :: rest => flatCmds l ++ flatCmds rest
+  | c :: rest => c :: flatCmds rest
+
+def stName : UnitState → String
+  | .pending => "Pending" | .partialPresent => "PartialPresent" | .scheduled => "Scheduled" | .merging => "Merging"
+  | .completed => "Completed" | .noOp => "NoOp" | .shadowed => "Shadowed"
+
+def errClass : Err → String
+  | .invalidTransition f t => s!"C05/invalid-transition/{stName f}-to-{stName t}"
+  | .indexOutOfRange => "C05/panic/index-out-of-range"
+  | .nilRange => "C05/panic/nil-dereference"
+  | .mergeNotAfterComplete => "C05/panic/merge-before-previous-complete"
+  | .noFreeWorker => "C05/panic/no-free-worker"
+  | .workerAlreadyFree => "C05/panic/worker-returned-twice"
+  | _ => "C05/panic/other"
+
+/-- violations of the property's predicates caused by one step (same classes as the harness oracle) -/
+def stepViolations (st : State) (idx : Nat) (st' : State) : List String :=
+  let c := st.bag[idx]?
+  let v1 := match st'.ended with
+    | some (.panic e) => [errClass e]
+    | some .quitErr => ["C05/quit-with-error"]
+    | _ => []
+  let v2 := match c with
+    | some .scheduleNextJob | some .tick =>
+      (match newJob st st' with
+       | some (u, sb) =>
+         let seg := sb / st.cfg.interval
+         let miss := missingDeps st.cfg st.files u.stage (seg * st.cfg.interval)
+         if miss.isEmpty then [] else
+           [if u.seg ≤ (st.stages.stageAt u.stage).seg.firstIndex then "C05/job-before-lower-stage-complete/first-segment-of-stage"
+            else "C05/job-before-lower-stage-complete/lower-stage-previous-segment-incomplete"]
+       | none => [])
+    | _ => []
+  let v3 := match c with
+    | some (.merge u) =>
+      -- MsgMergeFinished(u) for a unit that is already Completed: the segment has been merged before
+      (match (runMerge st.stages u st.files) with
+       | some _ =>
+         if st.stages.getState u.seg u.stage = .completed then ["C05/merge-twice"]
+         else if u.seg ≠ (st.stages.stageAt u.stage).next then ["C05/merge-out-of-order"] else []
+       | none => [])
+    | _ => []
+  let v4 := if st'.ended.isNone && st'.bag.isEmpty then ["C05/deadlock"] else []
+  let v5 := match st'.ended with
+    | some .quitNil =>
+      (if st'.stages.allStoresCompleted then [] else ["C05/final/stores-not-completed"]) ++
+      (match st'.walker with
+       | some w => if (List.range' w.seg.firstIndex (w.seg.lastIndex + 1 - w.seg.firstIndex)).all
+            (fun i => match w.seg.range? i with | some r => st'.files.hasOutput r.start r.stop | none => true) then [] else ["C05/final/output-missing"]
+       | none => []) ++
+      (match st'.cfg.buildStores with
+       | some b => if st'.stages.stages.all (fun sg => sg.kind != .store ||
+            (List.range sg.mods.length).all fun i => let m := sg.mods.getD i default
+              (m.lastBlock == b.stop && m.cached) || !(m.init < b.stop) || st'.files.hasFull sg.idx i b.stop m.init) then [] else ["C05/final/stores-not-at-handoff"]
+       | none => [])
+    | _ => []
+  v1 ++ v2 ++ v3 ++ v4 ++ v5
+
+/-- diagnostics that are not part of the property (model only, shown with v=1) -/
+def stepDiagnostics (st : State) (idx : Nat) (st' : State) : List String :=
+  match st.bag[idx]? with
+  | some .scheduleNextJob | some .tick =>
+    (match newJob st st' with
+     | some (u, _) => if (prevIncomplete st'.stages u).isEmpty then [] else ["diag/job-with-previous-lower-unit-not-Completed"]
+     | none => [])
+  | some (.merge u) =>
+    (if st.stages.getState u.seg u.stage ≠ .merging then ["diag/merge-finished-on-non-merging-unit"] else []) ++
+    (if ((flatCmds st.bag).filter fun c => match c with | .merge u' => u' == u | _ => false).length > 1 then ["diag/two-merges-of-one-unit-in-flight"] else [])
+  | _ => []
+
+structure XState where
+  visited : Std.HashMap String Nat := {}
+  edges   : Array (List (Nat × Bool)) := #[]      -- (target, poll edge)
+  term    : Array String := #[]
+  viol    : List (String × List (Nat × Bool)) := []   -- class, first witness schedule
+  trunc   : Bool := false
+  diag    : Bool := false
+
+def schedStr (p : List (Nat × Bool)) : String :=
+  if p.isEmpty then "-" else ",".intercalate (p.map fun c => toString c.1 ++ (if c.2 then "e" else ""))
+
+/-- unwrap every batch first (a batch hides its content from the state key) -/
+partial def unwrapBatches (st : State) (clock : Bool) (path : List (Nat × Bool)) : State × List (Nat × Bool) :=
+  if st.ended.isSome then (st, path) else
+  match st.bag.findIdx? (fun c => match c with | .batch _ => true | _ => false) with
+  | some i => unwrapBatches (step st i clock) clock (path ++ [(i, clock)])
+  | none => (st, path)
+
+partial def exploreFrom (budget : Nat) (st0 : State) (clock : Bool) (path0 : List (Nat × Bool)) (x : XState) : XState × Nat :=
+  let (st, path) := unwrapBatches st0 clock path0
+  let key := stateKey st ++ (if clock then " clk" else "")
+  match x.visited[key]? with
+  | some id => (x, id)
+  | none =>
+    let id := x.edges.size
+    let x := { x with visited := x.visited.insert key id, edges := x.edges.push [], term := x.term.push "" }
+    if st.ended.isSome || st.bag.isEmpty then ({ x with term := x.term.set! id (endString st) }, id)
+    else if x.edges.size > budget then ({ x with trunc := true }, id)
+    else
+      let x := (choicesOf st clock).foldl (fun (x : XState) (c : Nat × Bool) =>
+        let st' := step st c.1 c.2
+        let p' := path ++ [c]
+        let vs := stepViolations st c.1 st' ++ (if x.diag then stepDiagnostics st c.1 st' else [])
+        let x := vs.foldl (fun (x : XState) v => if x.viol.any (·.1 == v) then x else { x with viol := x.viol ++ [(v, p')] }) x
+        let kind := stepKind st c.1 c.2 st'
+        let poll := kind.startsWith "fileNotPresent" ||
+          ((kind.startsWith "schedNext>" || kind.startsWith "tickschedNext>") && !c.2 && kind.endsWith ">1" && st'.pool.rampup)
+        let (x, to) := exploreFrom budget st' (clock || c.2) p' x
+        { x with edges := x.edges.modify id (fun l => (to, poll) :: l) }) x
+      (x, id)
+
+/-- graph checks: a quit state is reachable from every state; no cycle of non-poll edges -/
+def graphViolations (x : XState) : List String :=
+  let n := x.edges.size
+  -- backward reachability from quit:nil by fixpoint iteration
+  let good0 : Array Bool := (Array.range n).map fun i => x.term[i]! == "quit:nil"
+  let iter (good : Array Bool) : Array Bool := (Array.range n).map fun i =>
+    good[i]! || (x.edges[i]!).any fun e => good[e.1]!
+  let rec fix (k : Nat) (good : Array Bool) : Array Bool :=
+    match k with
+    | 0 => good
+    | k + 1 => let g' := iter good; if g' == good then good else fix k g'
+  let good := fix n good0
+  let v1 := if (Array.range n).any (fun i => !good[i]! && x.term[i]! == "") then ["C05/no-termination/quit-unreachable"] else []
+  -- cycle of non-poll edges: repeatedly remove nodes without non-poll successors among the remaining ones
+  let rec peel (k : Nat) (alive : Array Bool) : Array Bool :=
+    match k with
+    | 0 => alive
+    | k + 1 =>
+      let a' := (Array.range n).map fun i => alive[i]! && (x.edges[i]!).any fun e => !e.2 && alive[e.1]!
+      if a' == alive then alive else peel k a'
+  let alive := peel n ((Array.range n).map fun _ => true)
+  let v2 := if alive.any id then ["C05/no-termination/cycle-without-poll"] else []
+  v1 ++ v2
+
+def exploreCase (toks : List String) : String :=
+  let cfg : Cfg := {
+    interval := nat! (kv toks "k"), buildStores := parseRange (kv toks "bs"), writeExecOut := parseRange (kv toks "we"),
+    readExecOut := parseRange (kv toks "re"), graph := parseGraph (kv toks "st"), start := nat! (kv toks "start"),
+    outIsIndex := kv toks "idx" == "1", outIsMap := kv toks "idx" != "1", outInit := nat! (kv toks "xi"),
+    workers := nat! (kv toks "w") }
+  let fix := parseFix (kv toks "fix")
+  let budget := if kv toks "budget" == "" then 200000 else nat! (kv toks "budget")
+  match init cfg fix (parseFiles (kv toks "files")) with
+  | .error e => s!"states=0 trunc=false viol={errClass e}/at-init"
+  | .ok st0 =>
+    let (x, _) := exploreFrom budget st0 false [] { diag := kv toks "v" == "1" }
+    let (x, _) := if cfg.workers > 1 then exploreFrom budget st0 true [] x else (x, 0)
+    let gv := if x.trunc then [] else graphViolations x
+    let classes := (x.viol.map (·.1) ++ gv).foldl (fun acc v => insertStr v acc) []
+    let detail := if kv toks "v" == "1" then " witness=" ++ ";".intercalate (x.viol.map fun p => p.1 ++ ":" ++ schedStr p.2) else ""
+    s!"states={x.edges.size} trunc={x.trunc} viol={listOr classes}" ++ detail
+
 def step (line : String) : String :=
   match words line with
   | "RUN" :: toks => runCase toks
+  | "EXPLORE" :: toks => exploreCase toks
   | _ => "bad-op"
-
 end C05D
 
 def main : IO Unit := SVD.runLines C05D.step
